@@ -434,6 +434,15 @@ impl<'a> Driver<'a> {
             return false;
         }
         if matches!(s.exp, Exp::Broken(_)) || (s.desync && !self.oracle.tolerates_desync()) {
+            if self.oracle.prop() == "C01" && s.desync {
+                // the alive set has left the model (that by itself is C02's business); before the
+                // case is closed: a vertex the implementation still has although it should be gone
+                // must not take unrelated vertices with it when it is read
+                if let Some(f) = self.probe_strangers(&s) {
+                    self.out.failure = Some(f);
+                    return false;
+                }
+            }
             self.out.closed = Some("desync_with_model");
             return false;
         }
@@ -454,6 +463,63 @@ impl<'a> Driver<'a> {
             self.out.max_labels = self.out.max_labels.max(m.get(*a).edges.len());
         }
         true
+    }
+
+    /// C01 only, after the implementation's alive set has left the model: every vertex that
+    /// keys() reports although the history says it is gone (a "stranger": leaked by a collection,
+    /// kept by a copy) is given a datum and read — after fresh pairs WITHOUT data were formed in
+    /// every free group slot, so that a stale slot number finds a live group. Whatever else
+    /// disappears was never bind-linked to the stranger, or holds an unread datum: C01's own
+    /// statement. On a tree without the defect there are no strangers and nothing is called.
+    fn probe_strangers(&mut self, s: &crate::interp::StepInfo) -> Option<Failure> {
+        use std::panic::{catch_unwind, AssertUnwindSafe};
+        let keys = self.r.g.keys();
+        let strangers: Vec<usize> = keys.iter().copied().filter(|k| !self.r.m.present(*k)).take(8).collect();
+        if strangers.is_empty() {
+            return None;
+        }
+        self.out.events.insert("c01.strangers_probed");
+        let cap = self.r.m.cap;
+        let both_absent: Vec<usize> = (0..cap).filter(|i| !keys.contains(i) && !self.r.m.present(*i)).collect();
+        let free_slots = crate::model::MAX_GROUPS.saturating_sub(self.r.m.groups_alive());
+        let mut fresh = vec![];
+        for j in 0..free_slots {
+            let (Some(a), Some(b)) = (both_absent.get(2 * j), both_absent.get(2 * j + 1)) else { break };
+            let g = &mut self.r.g;
+            if catch_unwind(AssertUnwindSafe(|| {
+                g.add(*a);
+                g.add(*b);
+                g.bind(*a, *b, crate::lab::Lab::Alpha(0).direct());
+            }))
+            .is_ok()
+            {
+                fresh.extend([*a, *b]);
+            }
+        }
+        for x in &strangers {
+            let before = self.r.g.keys();
+            let g = &mut self.r.g;
+            let _ = catch_unwind(AssertUnwindSafe(|| {
+                g.put(*x, &crate::graph::hex_of(&[0x5A; 3]));
+                let _ = g.data(*x);
+            }));
+            let after = self.r.g.keys();
+            for w in before.iter().filter(|w| !after.contains(w) && !strangers.contains(w)) {
+                let known = self.r.m.present(*w);
+                if !known && !fresh.contains(w) {
+                    continue;
+                }
+                let linked = known && *x < cap && self.r.hist.connected(*x, *w);
+                let unread = known && self.r.hist.unread.contains(w);
+                if !linked || unread {
+                    return fail("C01", if unread { "removed_holding_unread" } else { "removed_unlinked" }, s, format!(
+                        "after {}: the implementation still has vertex {x} (the history says it is gone); put({x}) + first read of {x} removed vertex {w}, which {}",
+                        s.call.render(),
+                        if unread { "holds a datum that was put and not yet read" } else { "was never linked to it by a bind" }));
+                }
+            }
+        }
+        None
     }
 
     /// The drain epilogue of DESIGN §5.4.
